@@ -129,9 +129,9 @@ def template():
 def e2e_case(c):
     """ground truth (p*, R*) -> tomogram; input molecule = truth o F^-1 with F=(s,q) in the searched set; align; compare."""
     from acryo import SubtomogramLoader, BatchLoader, Molecules, TomogramSimulator
-    from acryo.alignment import ZNCCAlignment, NCCAlignment, PCCAlignment
+    from acryo.alignment import ZNCCAlignment, NCCAlignment, PCCAlignment, FSCAlignment
     from scipy.spatial.transform import Rotation
-    M = {"zncc": ZNCCAlignment, "ncc": NCCAlignment, "pcc": PCCAlignment}[c["model"]]
+    M = {"zncc": ZNCCAlignment, "ncc": NCCAlignment, "pcc": PCCAlignment, "fsc": FSCAlignment}[c["model"]]
     tmpl = template()
     scale = c["scale"]
     Rtrue = Rotation.from_rotvec([c["rv_true"]])
@@ -149,7 +149,8 @@ def e2e_case(c):
     A = Rtrue * q.inv()
     p = ptrue - A.apply(s)[0]
     mol = Molecules(p[None] * scale, A)
-    kw = dict(max_shifts=c["max_shift_px"] * scale, alignment_model=M, rotations=rots)
+    msh = c["max_shift_px"]
+    kw = dict(max_shifts=(tuple(float(x) * scale for x in msh) if isinstance(msh, (list, tuple)) else msh * scale), alignment_model=M, rotations=rots)
     if c["loader"] == "single":
         out = SubtomogramLoader(tomo, mol, order=3, scale=scale, output_shape=tmpl.shape).align(tmpl, **kw)
         mo = out.molecules
@@ -183,12 +184,37 @@ def e2e_case(c):
     ferr = np.abs(fs - s * scale).max()
     frot = Rotation.from_rotvec([[f["align-dzrot"][0], f["align-dyrot"][0], f["align-dxrot"][0]]])
     frerr = np.degrees((frot.inv() * q).magnitude()[0])
-    ok = perr <= 0.3 and rerr <= 0.5 and ferr <= 0.3 * scale + 0.006 and frerr <= 0.5
+    ptol = 0.6 if c["model"] == "fsc" else 0.3        # FSC scans integer lags (C04)
+    ok = perr <= ptol and rerr <= 0.5 and ferr <= ptol * scale + 0.006 and frerr <= 0.5
     return ok, f"pos err {perr:.3f} px, rot err {rerr:.3f} deg, shift-feature err {ferr:.3f} nm, rot-feature err {frerr:.3f} deg"
+
+
+E2E_DIRECTED = [
+    # a particle close to the low z / x faces of the tomogram (its read-out box plus interpolation margin starts below index 0)
+    dict(model="zncc", loader="single", scale=1.0, rv_true=[0.0, 0.0, 0.0], p_true=[9.0, 22.0, 9.5], rotations=[[0, 0], [0, 0], [0, 0]], k=0,
+         shift_px=[1.0, -1.5, 0.5], max_shift_px=2.0),
+    dict(model="pcc", loader="batch", scale=0.5, rv_true=[0.0, 0.0, 0.3], p_true=[9.5, 9.0, 23.0], rotations=[[0, 0], [0, 0], [0, 0]], k=0,
+         shift_px=[-1.0, 1.0, 1.5], max_shift_px=2.0),
+    # FSC with a different range on every axis, whole-pixel displacement
+    dict(model="fsc", loader="single", scale=1.0, rv_true=[0.0, 0.0, 0.0], p_true=[22.0, 23.0, 22.0], rotations=[[0, 0], [0, 0], [0, 0]], k=0,
+         shift_px=[1.0, 1.0, -3.0], max_shift_px=[1.0, 1.0, 3.0]),
+    dict(model="fsc", loader="group", scale=2.0, rv_true=[0.2, 0.0, 0.0], p_true=[22.0, 22.0, 23.0], rotations=[[0, 0], [0, 0], [0, 0]], k=0,
+         shift_px=[-1.0, 2.0, 1.0], max_shift_px=[1.0, 3.0, 1.0]),
+]
 
 
 def oracle_e2e(ck, rng):
     n = 15 if ck.tier == "quick" else 150
+    for c in E2E_DIRECTED:
+        c = dict(c)
+        try:
+            ok, detail = e2e_case(c)
+        except Exception as e:  # noqa
+            ok, detail = False, f"raised {type(e).__name__}: {e}"
+        ck.oracle_count("end_to_end_pose_recovery", 1, 1)
+        if not ok:
+            ck.violation(what=f"aligned molecule is not at the true pose: {detail}", inp=c,
+                         key={"site": "e2e-directed", "model": c["model"], "loader": c["loader"]}, oracle="end_to_end_pose_recovery", measured=detail)
     for i in range(n):
         rots = [((20, 20), (0, 0), (0, 0)), ((0, 0), (90, 90), (0, 0)), ((0, 0), (0, 0), (30, 30)), ((10, 10), (10, 10), (0, 0)),
                 ((90, 90), (0, 0), (0, 0))][i % 5]
